@@ -1048,6 +1048,22 @@ func rulePooledLocationsDeepCopied(r *Report, rule string) {
 				for _, a := range c.Args[1:] {
 					cl, isLit := ast.Unparen(a).(*ast.CompositeLit)
 					if !isLit {
+						// a helper that builds the copy: follow it one level (its returned literal is judged instead)
+						if hc, isCall := ast.Unparen(a).(*ast.CallExpr); isCall {
+							if hf := callee(info, hc); hf != nil {
+								if hfi := p.funcs[funcName(hf)]; hfi != nil && hfi.Decl.Body != nil {
+									for _, hr := range returnsOf(hfi.Decl.Body) {
+										if len(hr.Results) >= 1 {
+											if hl, isHL := ast.Unparen(hr.Results[0]).(*ast.CompositeLit); isHL {
+												cl, isLit = hl, true
+											}
+										}
+									}
+								}
+							}
+						}
+					}
+					if !isLit {
 						ok, why = false, "element "+exprStr(a)+" is copied as a whole value (its ArrayPositions slice is shared with the source match)"
 						continue
 					}
